@@ -65,6 +65,9 @@ def extract(text, rec, case):
 
 
 def fail(rec, what, case, observed=None, expected=None):
+    tag = getattr(rec, "c01_tag", None)
+    if tag:
+        case = dict(case, replay_form=tag[0], replay_rng=tag[1])
     rec.violation("C01." + what, case, observed=observed, expected=expected)
     return False
 
@@ -701,20 +704,26 @@ def run_shard(spec, rec):
     run_minimal(spec, rec, rng)
     run_literals(spec, rec, rng)
     run_examples(spec, rec, rng)
-    for _ in range(spec["n"]):
-        check_full(rng, rec)
-        if _ % 2 == 0:
-            check_short(rng, rec)
-            check_supra(rng, rec)
-            check_id(rng, rec)
-            check_journal(rng, rec)
-            check_law(rng, rec)
-            check_antecedent_full(rng, rec)
+    for k in range(spec["n"]):
+        forms = ["check_full"] + (["check_short", "check_supra", "check_id", "check_journal", "check_law",
+                                   "check_antecedent_full"] if k % 2 == 0 else [])
+        for fn in forms:
+            tag = f"{spec['seed']}-{k}-{fn}"
+            rec.c01_tag = (fn, tag)          # lets --replay regenerate exactly this case
+            globals()[fn](random.Random(tag), rec)
+    rec.c01_tag = None
 
 
 def replay(w, rec):
     from eyecite import get_citations
-    t = w["case"]["text"]
-    rec.note("re-extraction of witness text: " + repr([(M.kind(c), c.span(), c.full_span(), c.groups, c.metadata) for c in get_citations(t)])[:1500])
-    if w.get("expected") is not None:
-        rec.violation(w["monitor"], w["case"], observed="see note (witness re-extracted; compare with expected)", expected=w["expected"])
+    c = w["case"]
+    if c.get("replay_form") in globals() and c.get("replay_rng"):
+        # regenerate the identical case (same seeded generator) and judge it again
+        globals()[c["replay_form"]](random.Random(c["replay_rng"]), rec)
+        return
+    t = c["text"]
+    rec.note("re-extraction of witness text: " + repr([(M.kind(x), x.span(), x.full_span(), x.groups, x.metadata) for x in get_citations(t)])[:1500])
+    if "origin" in c and "core" in c:
+        o = c["origin"]
+        if "extractor" in o and o["extractor"] < len(gen.DB.cit_extractors):
+            minimal_form(gen.DB.cit_extractors[o["extractor"]], c["core"], random.Random(0), rec, o)
